@@ -149,6 +149,10 @@ Lemma heap_remove_from_repos models rem s : heap (remove_from_repos models rem s
 Proof. unfold remove_from_repos. revert s. induction models as [|x t IH]; intro s; cbn; [reflexivity|]. rewrite IH. reflexivity. Qed.
 Lemma constr_remove_from_repos models rem s : constr (remove_from_repos models rem s) = constr s.
 Proof. unfold remove_from_repos. revert s. induction models as [|x t IH]; intro s; cbn; [reflexivity|]. rewrite IH. reflexivity. Qed.
+Lemma targets_remove_from_repos models rem s : targets (remove_from_repos models rem s) = targets s.
+Proof. unfold remove_from_repos. revert s. induction models as [|x t IH]; intro s; cbn; [reflexivity|]. rewrite IH. reflexivity. Qed.
+Lemma curop_remove_from_repos models rem s : curop (remove_from_repos models rem s) = curop s.
+Proof. unfold remove_from_repos. revert s. induction models as [|x t IH]; intro s; cbn; [reflexivity|]. rewrite IH. reflexivity. Qed.
 Lemma reads_handler m s : reads (handler m s) = reads s.
 Proof. unfold handler. destruct cleanup_construction_failure; [apply reads_remove_from_repos | reflexivity]. Qed.
 Lemma heap_handler m s : heap (handler m s) = heap s.
@@ -171,11 +175,11 @@ Proof.
 Qed.
 
 
-Lemma cached_load_returns_cached fs c f s m :
+Lemma cached_load_returns_cached_raw fs c f s m :
   cglobal c = true -> dget f (allm s) = Some m ->
-  fst (load_main fs c f s) = inr m /\ reads (snd (load_main fs c f s)) = [] /\ allm (snd (load_main fs c f s)) = allm s.
+  fst (load_main_raw fs c f s) = inr m /\ reads (snd (load_main_raw fs c f s)) = [] /\ allm (snd (load_main_raw fs c f s)) = allm s.
 Proof.
-  intros Hg Hc. unfold load_main, begin_op. rewrite Hg. cbn [allm with_reads].
+  intros Hg Hc. unfold load_main_raw, begin_op. rewrite Hg. cbn [allm with_reads].
   rewrite Hc, src_mp_on_cached. cbn. auto.
 Qed.
 
@@ -407,11 +411,11 @@ Proof.
 Qed.
 
 (* C17, first part: a top-level load never runs out of its fuel |files|+1, and opens no file twice. *)
-Theorem load_main_once fs c f s :
+Theorem load_main_once_raw fs c f s :
   K fs (begin_op c s) ->
-  fst (load_main fs c f s) <> inl EFuel /\ NoDup (reads (snd (load_main fs c f s))).
+  fst (load_main_raw fs c f s) <> inl EFuel /\ NoDup (reads (snd (load_main_raw fs c f s))).
 Proof.
-  intro HK. unfold load_main.
+  intro HK. unfold load_main_raw.
   set (s0 := begin_op c s) in *.
   assert (Hr0 : reads s0 = []) by reflexivity.
   destruct (if cglobal c then dget f (allm s0) else None) as [m|] eqn:Ec.
@@ -564,7 +568,10 @@ Section Clean.
     st_old : old s' = old s;
     st_loc : forall x, x < n0 -> local_of x s' = local_of x s;
     st_heap : forall v mi, nth_error (heap s) v = Some mi -> nth_error (heap s') v = Some mi;
-    st_constr : incl (constr s) (constr s') }.
+    st_constr : incl (constr s) (constr s');
+    st_cold : filter (fun x => Nat.ltb x n0) (constr s') = filter (fun x => Nat.ltb x n0) (constr s);
+    st_tgt : targets s' = targets s;
+    st_curop : curop s' = curop s }.
   Definition Pres (s s' : state) : Prop := forall k v, dget k (allm s) = Some v -> dget k (allm s') = Some v.
 
   Lemma local_of_ext s s' x : locals s' = locals s -> local_of x s' = local_of x s.
@@ -580,19 +587,28 @@ Section Clean.
   Proof. intro H. constructor; auto using incl_refl. Qed.
   Lemma Step_trans s s1 s2 : Step s s1 -> Step s1 s2 -> Step s s2.
   Proof.
-    intros [A B C D E] [A' B' C' D' E']. constructor; auto.
+    intros [A B C D E F G H] [A' B' C' D' E' F' G' H']. constructor.
+    - exact A'.
     - congruence.
     - intros x Hx. rewrite C', C; auto.
+    - auto.
     - eapply incl_tran; eassumption.
+    - congruence.
+    - congruence.
+    - congruence.
   Qed.
-  Lemma Step_ext s s1 s2 : Step s s1 -> heap s2 = heap s1 -> allm s2 = allm s1 -> constr s2 = constr s1 -> locals s2 = locals s1 -> Step s s2.
+  Lemma Step_ext s s1 s2 : Step s s1 -> heap s2 = heap s1 -> allm s2 = allm s1 -> constr s2 = constr s1 -> locals s2 = locals s1 ->
+    targets s2 = targets s1 -> curop s2 = curop s1 -> Step s s2.
   Proof.
-    intros [A B C D E] Eh Ea Ec El. constructor.
+    intros [A B C D E F G H] Eh Ea Ec El Et Eo. constructor.
     - eapply Inv_ext; eassumption.
     - unfold old. rewrite Ea. exact B.
     - intros x Hx. rewrite (local_of_ext s1 s2 x El). auto.
     - rewrite Eh. exact D.
     - rewrite Ec. exact E.
+    - rewrite Ec. exact F.
+    - rewrite Et. exact G.
+    - rewrite Eo. exact H.
   Qed.
   Lemma Pres_refl s : Pres s s. Proof. intros k v H; exact H. Qed.
   Lemma Pres_trans s s1 s2 : Pres s s1 -> Pres s1 s2 -> Pres s s2. Proof. intros A B k v H. auto. Qed.
@@ -608,7 +624,7 @@ Section Clean.
       - intros [H|[]]. inversion H. auto.
       - destruct (Nat.eqb g a); cbn; intros [H|H]; auto. inversion H; auto. destruct (IH H); auto. }
     destruct HI as [A B C D E F G H].
-    constructor; [constructor; auto| reflexivity | | auto | apply incl_refl].
+    constructor; [constructor; auto| reflexivity | | auto | apply incl_refl | reflexivity | reflexivity | reflexivity].
     - intros x g' t Hx. rewrite Hloc by lia. apply G. exact Hx.
     - intros x g' t. destruct (Nat.eq_dec x m) as [->|Hne].
       + intro Hin. apply Hlm in Hin as [Hin| ->]; [eapply H; eassumption | split; [exact Hml | exact Hv]].
@@ -621,7 +637,7 @@ Section Clean.
     intros [A B C D E F G H].
     assert (Hh : forall v mi, nth_error (heap s) v = Some mi -> nth_error (heap s ++ [mkMinfo g (curop s) fc]) v = Some mi).
     { intros v mi Hv. rewrite nth_error_app1; [exact Hv | apply nth_error_Some; congruence]. }
-    constructor; [constructor| reflexivity | reflexivity | exact Hh | ]; autorewrite with st.
+    constructor; [constructor| reflexivity | reflexivity | exact Hh | | | reflexivity | reflexivity]; autorewrite with st.
     - rewrite app_length. lia.
     - exact B.
     - exact C.
@@ -631,6 +647,7 @@ Section Clean.
     - exact G.
     - intros x g' t Hin. rewrite app_length. destruct (H x g' t Hin). split; lia.
     - apply incl_tl, incl_refl.
+    - cbn [filter]. replace (Nat.ltb (length (heap s)) n0) with false; [reflexivity|]. symmetry. apply Nat.ltb_ge. exact A.
   Qed.
 
   Lemma old_app s l : (forall kv, In kv l -> is_old kv = false) -> filter is_old (allm s ++ l) = old s.
@@ -714,7 +731,7 @@ Section Clean.
     split; [|exact Ha].
     assert (Hsub : forall kv, In kv (allm (remove_from_repos (included m s) rem s)) -> In kv (allm s) /\ is_old kv = true).
     { intros kv. rewrite Ha. unfold old. intro H. apply filter_In in H. exact H. }
-    constructor; [constructor|..]; rewrite ?heap_remove_from_repos, ?constr_remove_from_repos; auto using incl_refl.
+    constructor; [constructor|..]; rewrite ?heap_remove_from_repos, ?constr_remove_from_repos, ?targets_remove_from_repos, ?curop_remove_from_repos; auto using incl_refl.
     - apply (inv_n0 s HI).
     - rewrite Ha. apply NoDup_map_filter. apply (inv_keys s HI).
     - rewrite Ha. apply NoDup_map_filter. apply (inv_vals s HI).
@@ -759,7 +776,7 @@ Section CleanLoad.
     - intro H. inversion H; subst. split; [exact Hst | discriminate].
     - intro H. inversion H; subst. destruct (Hok m' eq_refl) as [Hp Hg1].
       assert (Hst1 : Step s (set_all g m' s1)).
-      { eapply Step_ext; [exact Hst | reflexivity | apply set_all_same; exact Hg1 | reflexivity | reflexivity]. }
+      { eapply Step_ext; [exact Hst | reflexivity | apply set_all_same; exact Hg1 | reflexivity | reflexivity | reflexivity | reflexivity]. }
       split.
       + eapply Step_trans; [exact Hst1|]. apply Step_set_local; [apply (st_inv _ _ _ Hst1) | exact Hm | |].
         { autorewrite with st. apply nth_error_Some. rewrite (st_heap _ _ _ Hst m mi Hh). discriminate. }
@@ -1030,11 +1047,11 @@ End CleanMain.
 
 (* C18: a failing top-level load restores the repository exactly and leaves a state from which
    loading behaves as specified (Stable is the invariant all C17/C18 theorems assume) *)
-Theorem load_main_failure_clean fs c f s e s' :
-  Stable s -> load_main fs c f s = (inl e, s') ->
+Theorem load_main_failure_clean_raw fs c f s e s' :
+  Stable s -> load_main_raw fs c f s = (inl e, s') ->
   allm s' = allm (begin_op c s) /\ (forall x, x < length (heap s) -> local_of x s' = local_of x s) /\ Stable s'.
 Proof.
-  intros HS. unfold load_main. set (s0 := begin_op c s).
+  intros HS. unfold load_main_raw. set (s0 := begin_op c s).
   pose proof (Stable_begin_op c s HS) as HS0. fold s0 in HS0.
   destruct (Stable_Inv s0 HS0) as [HI0 Hold0].
   assert (Eh0 : heap s0 = heap s) by (subst s0; unfold begin_op; destruct (cglobal c); reflexivity).
@@ -1088,11 +1105,11 @@ Proof.
   - intros x g t. rewrite El3. apply (inv_loc _ _ HI).
 Qed.
 
-Theorem load_main_stable fs c f s : Stable s -> Stable (snd (load_main fs c f s)).
+Theorem load_main_stable_raw fs c f s : Stable s -> Stable (snd (load_main_raw fs c f s)).
 Proof.
-  intro HS. destruct (load_main fs c f s) as [[e|m] s'] eqn:E; cbn [snd].
-  - destruct (load_main_failure_clean fs c f s e s' HS E) as [_ [_ H]]. exact H.
-  - revert E. unfold load_main. set (s0 := begin_op c s).
+  intro HS. destruct (load_main_raw fs c f s) as [[e|m] s'] eqn:E; cbn [snd].
+  - destruct (load_main_failure_clean_raw fs c f s e s' HS E) as [_ [_ H]]. exact H.
+  - revert E. unfold load_main_raw. set (s0 := begin_op c s).
     pose proof (Stable_begin_op c s HS) as HS0. fold s0 in HS0.
     destruct (Stable_Inv s0 HS0) as [HI0 Hold0].
     destruct (if cglobal c then dget f (allm s0) else None) as [m0|] eqn:Ec.
@@ -1108,11 +1125,6 @@ Qed.
 Lemma Stable_init b : Stable (init_state b).
 Proof. unfold Stable, init_state, file_ok, local_of. cbn. repeat split; try constructor; try tauto. Qed.
 
-Theorem run_hist_stable c ops : forall fs s, Stable s -> Stable (run_hist c fs s ops).
-Proof.
-  induction ops as [|[f|f fc] t IH]; intros fs s HS; cbn; [exact HS | | apply IH; exact HS].
-  apply IH. apply load_main_stable. exact HS.
-Qed.
 
 (* ================================================================== 6. lookup order *)
 Lemma first_some_app {A B} (f : A -> option B) l1 l2 :
@@ -1164,35 +1176,8 @@ Proof.
     + destruct (find_elem n l) as [j|]; [|discriminate]. cbn. intro H. inversion H; subst. cbn. apply IH. reflexivity.
 Qed.
 
-(* history-level corollaries *)
-Theorem hist_single_model_per_file c b fs ops :
-  let s := run_hist c fs (init_state b) ops in
-  NoDup (keys s) /\ NoDup (vals s) /\
-  (forall k v, In (k, v) (allm s) -> exists mi, nth_error (heap s) v = Some mi /\ mfile mi = k).
-Proof.
-  intro s. destruct (run_hist_stable c ops fs (init_state b) (Stable_init b)) as [A [B [C _]]]. auto.
-Qed.
 
-Theorem failure_leaves_only_earlier_models fs c f s e s' :
-  Stable s -> load_main fs c f s = (inl e, s') ->
-  (forall k v, In (k, v) (allm s') -> v < length (heap s) /\ In (k, v) (allm s)) /\
-  (cglobal c = true -> allm s' = allm s).
-Proof.
-  intros HS E. destruct (load_main_failure_clean fs c f s e s' HS E) as [Ha _].
-  assert (Hb : cglobal c = true -> allm (begin_op c s) = allm s) by (intro Hg; unfold begin_op; rewrite Hg; reflexivity).
-  split; [|intro Hg; rewrite Ha; apply Hb; exact Hg].
-  intros k v Hin. rewrite Ha in Hin. unfold begin_op in Hin. destruct (cglobal c); cbn in Hin; [|destruct Hin].
-  split; [|exact Hin]. destruct HS as [_ [_ [C _]]]. destruct (C k v Hin) as [mi [H _]]. apply nth_error_Some. congruence.
-Qed.
 
-Theorem after_failure_cache_serves fs fs' c f s e s' k v :
-  Stable s -> load_main fs c f s = (inl e, s') -> cglobal c = true ->
-  dget k (allm s) = Some v ->
-  fst (load_main fs' c k s') = inr v /\ reads (snd (load_main fs' c k s')) = [].
-Proof.
-  intros HS E Hg Hk. destruct (failure_leaves_only_earlier_models fs c f s e s' HS E) as [_ Ha].
-  specialize (Ha Hg). destruct (cached_load_returns_cached fs' c k s' v Hg ltac:(rewrite Ha; exact Hk)) as [A [B _]]. auto.
-Qed.
 
 (* ================================================================== 7. local models are the registered models (identity) *)
 Lemma In_dset_inv {A} (g : nat) (v : A) l g' t : In (g', t) (dset g v l) -> (g' = g /\ t = v) \/ In (g', t) l.
@@ -1346,11 +1331,11 @@ Definition LocReg (s : state) : Prop :=
 Lemma LocReg_init b : LocReg (init_state b).
 Proof. intros x g t _ []. Qed.
 
-Theorem load_main_ok_registered fs c f s m s' :
-  Stable s -> LocReg s -> load_main fs c f s = (inr m, s') ->
+Theorem load_main_ok_registered_raw fs c f s m s' :
+  Stable s -> LocReg s -> load_main_raw fs c f s = (inr m, s') ->
   forall x g t, In (g, t) (local_of x s') -> (In x (vals s') \/ x = m) -> dget g (allm s') = Some t.
 Proof.
-  intros HS HL. unfold load_main. set (s0 := begin_op c s).
+  intros HS HL. unfold load_main_raw. set (s0 := begin_op c s).
   pose proof (Stable_begin_op c s HS) as HS0. fold s0 in HS0.
   destruct (Stable_Inv s0 HS0) as [HI0 Hold0].
   assert (HL0 : LocReg s0).
@@ -1373,6 +1358,366 @@ Proof.
   destruct Hx as [Hx | ->]; [right; rewrite <- Ea; exact Hx | left; exact Hm1].
 Qed.
 
+
+
+(* C17 identity: after a successful load, every name looked up from a model of the result resolves into the
+   model itself, a builtin model, or THE model registered in all_models for the target's file *)
+
+
+Lemma registered_same_file_same_model s t1 t2 :
+  dget (file_of t1 s) (allm s) = Some t1 -> dget (file_of t2 s) (allm s) = Some t2 -> file_of t1 s = file_of t2 s -> t1 = t2.
+Proof. intros H1 H2 E. rewrite E in H1. congruence. Qed.
+
+(* ================================================================== 8. the load as observed: garbage collection (tidy) *)
+Notation ltn n := (fun x : nat => Nat.ltb x n).
+Notation keyltn n := (fun kv : nat * list (option (nat * nat)) => Nat.ltb (fst kv) n).
+
+Lemma targets_handler m s : targets (handler m s) = targets s.
+Proof. unfold handler. destruct cleanup_construction_failure; [apply targets_remove_from_repos | reflexivity]. Qed.
+Lemma curop_handler m s : curop (handler m s) = curop s.
+Proof. unfold handler. destruct cleanup_construction_failure; [apply curop_remove_from_repos | reflexivity]. Qed.
+
+Lemma filter_dset_high {A} n x (v : A) l : n <= x ->
+  filter (fun kv => Nat.ltb (fst kv) n) (dset x v l) = filter (fun kv => Nat.ltb (fst kv) n) l.
+Proof.
+  intro Hx. assert (Hf : Nat.ltb x n = false) by (apply Nat.ltb_ge; exact Hx).
+  induction l as [|[k w] l IH]; cbn [dset filter fst].
+  - rewrite Hf. reflexivity.
+  - destruct (Nat.eqb x k) eqn:E; cbn [filter fst].
+    + apply Nat.eqb_eq in E. subst k. rewrite Hf. reflexivity.
+    + rewrite IH. reflexivity.
+Qed.
+
+Lemma resolve_all_old c n models : forall s s', (forall x, In x models -> n <= x) -> resolve_all c models s = inr s' ->
+  filter (keyltn n) (targets s') = filter (keyltn n) (targets s) /\ curop s' = curop s.
+Proof.
+  induction models as [|x t IH]; intros s s' Hm; cbn.
+  - intro H. inversion H. auto.
+  - destruct (resolve_refs c s x (refs_of x s)) as [tg|]; [|discriminate]. intro H.
+    apply IH in H; [|intros y Hy; apply Hm; right; exact Hy]. destruct H as [H1 H2]. split; [|exact H2].
+    etransitivity; [exact H1|]. cbn [targets with_targets]. apply filter_dset_high. apply Hm. left. reflexivity.
+Qed.
+
+Lemma filter_filter_low n (p : nat -> bool) l : (forall x, x < n -> p x = true) -> filter (ltn n) (filter p l) = filter (ltn n) l.
+Proof.
+  intro H. induction l as [|a l IH]; cbn [filter]; [reflexivity|].
+  destruct (Nat.ltb a n) eqn:E.
+  - pose proof E as E'. apply Nat.ltb_lt in E'. rewrite (H a E'). cbn [filter]. rewrite E, IH. reflexivity.
+  - destruct (p a); cbn [filter]; rewrite ?E; exact IH.
+Qed.
+
+Lemma finish_main_failure_frame n0 c f m cached s1 e s' :
+  Inv n0 s1 -> n0 <= m -> finish_main c f m cached s1 = (inl e, s') ->
+  heap s' = heap s1 /\ filter (ltn n0) (constr s') = filter (ltn n0) (constr s1) /\
+  filter (keyltn n0) (targets s') = filter (keyltn n0) (targets s1) /\ curop s' = curop s1.
+Proof.
+  intros HI Hm. unfold finish_main. rewrite src_cleanup_inner, src_cleanup_mp.
+  set (models := filter (fun x => mem x (constr s1)) (included m s1)).
+  destruct (constr_rem_facts n0 s1 m HI Hm) as [_ Hr]. fold models in Hr.
+  destruct (resolve_all c models s1) as [e1|s2] eqn:Er.
+  { intro H. inversion H; subst.
+    rewrite heap_handler, constr_handler, targets_handler, curop_handler,
+      heap_remove_from_repos, constr_remove_from_repos, targets_remove_from_repos, curop_remove_from_repos. auto. }
+  destruct (resolve_all_old c n0 models s1 s2 Hr Er) as [Et Eo].
+  apply resolve_all_frame in Er. destruct Er as [_ [Ea [Eh [El Ec]]]].
+  set (s3 := with_constr s2 (filter (fun x => negb (mem x models)) (constr s2))).
+  assert (Hc3 : filter (ltn n0) (constr s3) = filter (ltn n0) (constr s1)).
+  { subst s3. cbn [constr with_constr]. rewrite Ec. apply filter_filter_low. intros x Hx.
+    apply negb_true_iff, mem_false. intro Hin. apply Hr in Hin. lia. }
+  destruct (first_obj_fail models s3).
+  { intro H. inversion H; subst.
+    rewrite heap_handler, constr_handler, targets_handler, curop_handler,
+      heap_remove_from_repos, constr_remove_from_repos, targets_remove_from_repos, curop_remove_from_repos.
+    repeat split; [exact Eh | exact Hc3 | exact Et | exact Eo]. }
+  destruct (flag_of fmp m s3); [|discriminate].
+  intro H. inversion H; subst.
+  rewrite heap_remove_from_repos, constr_remove_from_repos, targets_remove_from_repos, curop_remove_from_repos.
+  repeat split; [exact Eh | exact Hc3 | exact Et | exact Eo].
+Qed.
+
+Lemma prefix_firstn {A} (l l' : list A) :
+  (forall v a, nth_error l v = Some a -> nth_error l' v = Some a) -> firstn (length l) l' = l.
+Proof.
+  revert l'. induction l as [|a l IH]; intros l' H; [reflexivity|].
+  destruct l' as [|b l']; [specialize (H 0 a eq_refl); discriminate|].
+  pose proof (H 0 a eq_refl) as H0. cbn in H0. inversion H0; subst b. cbn. f_equal.
+  apply IH. intros v x Hv. exact (H (S v) x Hv).
+Qed.
+
+(* what a failing raw load leaves of the earlier state, beyond C18_clean *)
+Lemma load_main_raw_failure_frame fs c f s e s1 :
+  Stable s -> load_main_raw fs c f s = (inl e, s1) ->
+  firstn (length (heap s)) (heap s1) = heap s /\
+  filter (ltn (length (heap s))) (constr s1) = filter (ltn (length (heap s))) (constr s) /\
+  filter (keyltn (length (heap s))) (targets s1) = filter (keyltn (length (heap s))) (targets s) /\
+  curop s1 = curop s.
+Proof.
+  intros HS. unfold load_main_raw. set (s0 := begin_op c s).
+  pose proof (Stable_begin_op c s HS) as HS0. fold s0 in HS0.
+  destruct (Stable_Inv s0 HS0) as [HI0 Hold0].
+  assert (E0 : heap s0 = heap s /\ constr s0 = constr s /\ targets s0 = targets s /\ curop s0 = curop s)
+    by (subst s0; unfold begin_op; destruct (cglobal c); auto).
+  destruct E0 as [Eh0 [Ec0 [Et0 Eo0]]].
+  set (n0 := length (heap s0)) in *.
+  assert (En : n0 = length (heap s)) by (unfold n0; rewrite Eh0; reflexivity).
+  destruct (if cglobal c then dget f (allm s0) else None) as [m|] eqn:Ec.
+  { destruct (model_processors_on_cached && flag_of fmp m s0)%bool; intro H; inversion H; subst s1.
+    rewrite Eh0, Ec0, Et0, Eo0. split; [apply firstn_all | auto]. }
+  assert (Hg : dget f (allm s0) = None).
+  { destruct (cglobal c) eqn:Eg; [exact Ec|]. subst s0. unfold begin_op. rewrite Eg. reflexivity. }
+  destruct (load_file_cl fs c n0 (S (length fs)) true f s0 HI0 Hg) as [Hst [Hok _]].
+  destruct (load_file fs c (S (length fs)) true f s0) as [[e1|m] s1'] eqn:El; cbn [fst snd] in *.
+  - intro H. inversion H; subst. rewrite <- En, <- Eh0, <- Ec0, <- Et0, <- Eo0. fold n0.
+    split; [apply prefix_firstn; apply (st_heap _ _ _ Hst)|]. split; [apply (st_cold _ _ _ Hst)|].
+    split; [rewrite (st_tgt _ _ _ Hst); reflexivity | apply (st_curop _ _ _ Hst)].
+  - destruct (Hok m eq_refl) as [_ [Hm _]]. intro H.
+    destruct (finish_main_failure_frame n0 c f m _ s1' e s1 (st_inv _ _ _ Hst) Hm H) as [Fh [Fc [Ft Fo]]].
+    rewrite <- En, <- Eh0, <- Ec0, <- Et0, <- Eo0. fold n0. rewrite Fh, Fc, Ft, Fo.
+    split; [apply prefix_firstn; apply (st_heap _ _ _ Hst)|]. split; [apply (st_cold _ _ _ Hst)|].
+    split; [rewrite (st_tgt _ _ _ Hst); reflexivity | apply (st_curop _ _ _ Hst)].
+Qed.
+
+(* ---- projections of tidy *)
+Lemma allm_tidy n s : allm (tidy n s) = allm s. Proof. reflexivity. Qed.
+Lemma reads_tidy n s : reads (tidy n s) = reads s. Proof. reflexivity. Qed.
+Lemma heap_tidy n s : heap (tidy n s) = firstn n (heap s). Proof. reflexivity. Qed.
+Lemma length_heap_tidy n s : n <= length (heap s) -> length (heap (tidy n s)) = n.
+Proof. intro H. rewrite heap_tidy, firstn_length. lia. Qed.
+
+Lemma nth_error_firstn_lt {A} n (l : list A) v : v < n -> nth_error (firstn n l) v = nth_error l v.
+Proof.
+  revert l v. induction n as [|n IH]; intros l v Hv; [lia|].
+  destruct l as [|a l]; [destruct v; reflexivity|]. destruct v as [|v]; [reflexivity|]. cbn. apply IH. lia.
+Qed.
+
+Lemma dget_tab (F : nat -> list (nat * nat)) k : forall a x,
+  dget x (filter nonempty_entry (map (fun y => (y, F y)) (seq a k))) =
+  if (Nat.leb a x && Nat.ltb x (a + k) && negb (is_nil (F x)))%bool then Some (F x) else None.
+Proof.
+  induction k as [|k IH]; intros a x; cbn [seq map filter].
+  - cbn [dget]. rewrite Nat.add_0_r.
+    destruct (Nat.leb a x) eqn:E1; [|reflexivity]. apply Nat.leb_le in E1.
+    replace (Nat.ltb x a) with false by (symmetry; apply Nat.ltb_ge; exact E1). reflexivity.
+  - unfold nonempty_entry at 1. cbn [snd].
+    destruct (Nat.eq_dec x a) as [->|Hne].
+    + replace (Nat.leb a a) with true by (symmetry; apply Nat.leb_refl).
+      replace (Nat.ltb a (a + S k)) with true by (symmetry; apply Nat.ltb_lt; lia). cbn [andb].
+      destruct (is_nil (F a)) eqn:En; cbn [negb].
+      * rewrite IH. replace (Nat.leb (S a) a) with false by (symmetry; apply Nat.leb_gt; lia). reflexivity.
+      * cbn [dget]. rewrite Nat.eqb_refl. reflexivity.
+    + assert (Hrest : dget x (filter nonempty_entry (map (fun y => (y, F y)) (seq (S a) k))) =
+                      if (Nat.leb a x && Nat.ltb x (a + S k) && negb (is_nil (F x)))%bool then Some (F x) else None).
+      { rewrite IH. replace (Nat.ltb x (S a + k)) with (Nat.ltb x (a + S k)) by (f_equal; lia).
+        replace (Nat.leb (S a) x) with (Nat.leb a x); [reflexivity|].
+        destruct (Nat.leb a x) eqn:E1; symmetry; [apply Nat.leb_le; apply Nat.leb_le in E1; lia | apply Nat.leb_gt; apply Nat.leb_gt in E1; lia]. }
+      destruct (negb (is_nil (F a))); [|exact Hrest].
+      cbn [dget]. replace (Nat.eqb x a) with false by (symmetry; apply Nat.eqb_neq; exact Hne). exact Hrest.
+Qed.
+
+Lemma local_of_tidy n s x : local_of x (tidy n s) = if Nat.ltb x n then local_of x s else [].
+Proof.
+  unfold local_of at 1. cbn [locals tidy]. unfold norm_locals. rewrite (dget_tab (fun y => local_of y s) n 0 x).
+  cbn [Nat.leb andb plus]. destruct (Nat.ltb x n); [|reflexivity].
+  cbn [andb]. destruct (local_of x s) eqn:E; reflexivity.
+Qed.
+Lemma local_of_tidy_lt n s x : x < n -> local_of x (tidy n s) = local_of x s.
+Proof. intro H. rewrite local_of_tidy. apply Nat.ltb_lt in H. rewrite H. reflexivity. Qed.
+Lemma In_local_of_tidy n s x g t : In (g, t) (local_of x (tidy n s)) -> x < n /\ In (g, t) (local_of x s).
+Proof. rewrite local_of_tidy. destruct (Nat.ltb x n) eqn:E; [apply Nat.ltb_lt in E; auto | intros []]. Qed.
+
+Lemma Stable_tidy n s : Stable s -> n <= length (heap s) ->
+  (forall k v, In (k, v) (allm s) -> v < n) ->
+  (forall x g t, x < n -> In (g, t) (local_of x s) -> t < n) ->
+  Stable (tidy n s).
+Proof.
+  intros [A [B [C [D E]]]] Hn Hv Hl. unfold Stable, file_ok. rewrite allm_tidy, (length_heap_tidy n s Hn).
+  split; [exact A|]. split; [exact B|]. split; [|split].
+  - intros k v Hin. destruct (C k v Hin) as [mi [H1 H2]]. exists mi. split; [|exact H2].
+    rewrite heap_tidy, nth_error_firstn_lt; [exact H1 | eapply Hv; exact Hin].
+  - intros v Hin Hc. cbn [constr tidy] in Hc. apply filter_In in Hc as [Hc _]. eapply D; eassumption.
+  - intros x g t Hin. apply In_local_of_tidy in Hin as [Hx Hin]. split; [exact Hx | eapply Hl; eassumption].
+Qed.
+
+(* ---- the theorems about the raw load carry over to the load as observed *)
+Theorem load_main_once fs c f s :
+  K fs (begin_op c s) ->
+  fst (load_main fs c f s) <> inl EFuel /\ NoDup (reads (snd (load_main fs c f s))).
+Proof. intro H. unfold load_main. cbn [fst snd]. rewrite reads_tidy. apply load_main_once_raw. exact H. Qed.
+
+Lemma cached_load_returns_cached fs c f s m :
+  cglobal c = true -> dget f (allm s) = Some m ->
+  fst (load_main fs c f s) = inr m /\ reads (snd (load_main fs c f s)) = [] /\ allm (snd (load_main fs c f s)) = allm s.
+Proof.
+  intros Hg Hc. unfold load_main. cbn [fst snd]. rewrite reads_tidy, allm_tidy. apply cached_load_returns_cached_raw; assumption.
+Qed.
+
+Theorem load_main_failure_clean fs c f s e s' :
+  Stable s -> load_main fs c f s = (inl e, s') ->
+  allm s' = allm (begin_op c s) /\ (forall x, x < length (heap s) -> local_of x s' = local_of x s) /\ Stable s'.
+Proof.
+  intros HS. unfold load_main, live_bound. destruct (load_main_raw fs c f s) as [r s1] eqn:E. cbn [fst snd].
+  intro H. inversion H; subst r s'. clear H.
+  destruct (load_main_failure_clean_raw fs c f s e s1 HS E) as [Ha [Hl HS1]].
+  destruct (load_main_raw_failure_frame fs c f s e s1 HS E) as [Hf _].
+  assert (Hn : length (heap s) <= length (heap s1)).
+  { apply (f_equal (@length _)) in Hf. rewrite firstn_length in Hf. lia. }
+  split; [exact Ha|]. split; [intros x Hx; rewrite local_of_tidy_lt by exact Hx; apply Hl; exact Hx|].
+  destruct HS as [_ [_ [C [_ E5]]]].
+  apply Stable_tidy; [exact HS1 | exact Hn | |].
+  - intros k v Hin. rewrite Ha in Hin. unfold begin_op in Hin. destruct (cglobal c); cbn in Hin; [|destruct Hin].
+    destruct (C k v Hin) as [mi [H1 _]]. apply nth_error_Some. congruence.
+  - intros x g t Hx Hin. rewrite (Hl x Hx) in Hin. apply (E5 x g t Hin).
+Qed.
+
+Theorem load_main_stable fs c f s : Stable s -> Stable (snd (load_main fs c f s)).
+Proof.
+  intro HS. destruct (load_main fs c f s) as [[e|m] s'] eqn:E; cbn [snd].
+  - destruct (load_main_failure_clean fs c f s e s' HS E) as [_ [_ H]]. exact H.
+  - revert E. unfold load_main, live_bound. pose proof (load_main_stable_raw fs c f s HS) as HS1.
+    destruct (load_main_raw fs c f s) as [r s1]. cbn [fst snd] in *. intro H. inversion H; subst r s'.
+    pose proof HS1 as HS1'. destruct HS1 as [A [B [C [D E5]]]].
+    apply Stable_tidy; [exact HS1' | apply le_n | |].
+    + intros k v Hin. destruct (C k v Hin) as [mi [H1 _]]. apply nth_error_Some. congruence.
+    + intros x g t _ Hin. apply (E5 x g t Hin).
+Qed.
+
+Theorem load_main_ok_registered fs c f s m s' :
+  Stable s -> LocReg s -> load_main fs c f s = (inr m, s') ->
+  forall x g t, In (g, t) (local_of x s') -> (In x (vals s') \/ x = m) -> dget g (allm s') = Some t.
+Proof.
+  intros HS HL. unfold load_main, live_bound. destruct (load_main_raw fs c f s) as [r s1] eqn:E. cbn [fst snd].
+  intro H. inversion H; subst r s'. intros x g t Hin Hx. rewrite allm_tidy in *.
+  apply In_local_of_tidy in Hin as [_ Hin]. eapply (load_main_ok_registered_raw fs c f s m s1 HS HL E); eassumption.
+Qed.
+
+(* ---- the observed state is in normal form; a failed load restores the state exactly *)
+Definition Tidy (s : state) : Prop :=
+  (forall x, In x (constr s) -> x < length (heap s)) /\
+  (forall kv, In kv (targets s) -> fst kv < length (heap s)) /\
+  locals s = norm_locals (length (heap s)) s.
+
+Lemma norm_locals_ext n s s' : (forall x, x < n -> local_of x s' = local_of x s) -> norm_locals n s' = norm_locals n s.
+Proof.
+  intro H. unfold norm_locals. f_equal. apply map_ext_in. intros x Hx. apply in_seq in Hx. rewrite H by lia. reflexivity.
+Qed.
+
+Lemma tidy_Tidy n s : n <= length (heap s) -> Tidy (tidy n s).
+Proof.
+  intro Hn. unfold Tidy. rewrite (length_heap_tidy n s Hn). split; [|split].
+  - intros x Hx. cbn [constr tidy] in Hx. apply filter_In in Hx as [_ Hx]. apply Nat.ltb_lt. exact Hx.
+  - intros kv Hk. cbn [targets tidy] in Hk. apply filter_In in Hk as [_ Hk]. apply Nat.ltb_lt. exact Hk.
+  - cbn [locals tidy]. symmetry. apply norm_locals_ext. intros x Hx. apply local_of_tidy_lt. exact Hx.
+Qed.
+
+Lemma Tidy_init b : Tidy (init_state b).
+Proof.
+  unfold Tidy, init_state. cbn [constr targets locals heap]. split; [intros x []|]. split; [intros kv []|].
+  unfold norm_locals. symmetry. generalize (length (map (fun fc => mkMinfo 0 0 fc) b)). intro n. generalize 0.
+  induction n as [|n IH]; intro a; cbn; [reflexivity|]. apply IH.
+Qed.
+
+Theorem load_main_Tidy fs c f s : Stable s -> Tidy (snd (load_main fs c f s)).
+Proof.
+  intro HS. unfold load_main, live_bound. destruct (load_main_raw fs c f s) as [[e|m] s1] eqn:E; cbn [fst snd]; apply tidy_Tidy; [|apply le_n].
+  destruct (load_main_raw_failure_frame fs c f s e s1 HS E) as [Hf _].
+  apply (f_equal (@length _)) in Hf. rewrite firstn_length in Hf. lia.
+Qed.
+
+Theorem failed_load_restores_state fs c f s e s' :
+  Stable s -> Tidy s -> load_main fs c f s = (inl e, s') ->
+  heap s' = heap s /\ allm s' = allm (begin_op c s) /\ locals s' = locals s /\ constr s' = constr s /\
+  targets s' = targets s /\ curop s' = curop s.
+Proof.
+  intros HS [T1 [T2 T3]] H.
+  destruct (load_main_failure_clean fs c f s e s' HS H) as [Ha _].
+  revert H. unfold load_main, live_bound. destruct (load_main_raw fs c f s) as [r s1] eqn:E. cbn [fst snd].
+  intro H. inversion H; subst r s'. clear H.
+  destruct (load_main_failure_clean_raw fs c f s e s1 HS E) as [_ [Hl _]].
+  destruct (load_main_raw_failure_frame fs c f s e s1 HS E) as [Fh [Fc [Ft Fo]]].
+  split; [exact Fh|]. split; [exact Ha|]. split; [|split; [|split]].
+  - cbn [locals tidy]. rewrite T3. apply norm_locals_ext. exact Hl.
+  - cbn [constr tidy]. rewrite Fc. apply filter_id. intros x Hx. apply Nat.ltb_lt. apply T1. exact Hx.
+  - cbn [targets tidy]. rewrite Ft. apply filter_id. intros kv Hk. apply Nat.ltb_lt. apply T2. exact Hk.
+  - exact Fo.
+Qed.
+
+Lemma load_main_begin_op fs c f a b :
+  begin_op c a = begin_op c b -> length (heap a) = length (heap b) -> load_main fs c f a = load_main fs c f b.
+Proof.
+  intros H Hl. unfold load_main, live_bound, load_main_raw. rewrite H, Hl. reflexivity.
+Qed.
+
+(* C18, last clause: after a failed load, EVERY following load - on whatever the files have been rewritten to -
+   is literally the load that would have happened had the failed attempt never taken place: same outcome, same
+   file-open trace, same resulting state (repositories, local models, reference targets, model identities). *)
+Theorem reload_as_if_never_failed fs c f s e s' :
+  Stable s -> Tidy s -> load_main fs c f s = (inl e, s') ->
+  forall fs' f', load_main fs' c f' s' = load_main fs' c f' s.
+Proof.
+  intros HS HT H fs' f'. destruct (failed_load_restores_state fs c f s e s' HS HT H) as [Eh [Ea [El [Ec [Et Eo]]]]].
+  apply load_main_begin_op; [|rewrite Eh; reflexivity].
+  unfold begin_op in *. destruct s as [h a l co t r o], s' as [h' a' l' co' t' r' o']. cbn in *. subst.
+  destruct (cglobal c); cbn in *; subst; reflexivity.
+Qed.
+
+Theorem run_hist_stable_tidy c ops : forall fs s, Stable s -> Tidy s -> Stable (run_hist c fs s ops) /\ Tidy (run_hist c fs s ops).
+Proof.
+  induction ops as [|[f|f fc] t IH]; intros fs s HS HT; cbn; [auto | | apply IH; assumption].
+  apply IH; [apply load_main_stable; exact HS | apply load_main_Tidy; exact HS].
+Qed.
+
+(* a failing load can be dropped from a history: what follows is unchanged *)
+Theorem failing_load_is_invisible c fs f s e s' ops fs' f' :
+  Stable s -> Tidy s -> load_main fs c f s = (inl e, s') ->
+  run_hist c fs' s' (OLoad f' :: ops) = run_hist c fs' s (OLoad f' :: ops).
+Proof.
+  intros HS HT H. cbn [run_hist]. rewrite (reload_as_if_never_failed fs c f s e s' HS HT H fs' f'). reflexivity.
+Qed.
+
+Theorem reload_in_history c b fs0 ops fs f e s' :
+  let s := run_hist c fs0 (init_state b) ops in
+  load_main fs c f s = (inl e, s') -> forall fs' f', load_main fs' c f' s' = load_main fs' c f' s.
+Proof.
+  intros s H. destruct (run_hist_stable_tidy c ops fs0 (init_state b) (Stable_init b) (Tidy_init b)) as [HS HT].
+  exact (reload_as_if_never_failed fs c f s e s' HS HT H).
+Qed.
+
+Theorem run_hist_stable c ops : forall fs s, Stable s -> Stable (run_hist c fs s ops).
+Proof.
+  induction ops as [|[f|f fc] t IH]; intros fs s HS; cbn; [exact HS | | apply IH; exact HS].
+  apply IH. apply load_main_stable. exact HS.
+Qed.
+
+(* history-level corollaries *)
+Theorem hist_single_model_per_file c b fs ops :
+  let s := run_hist c fs (init_state b) ops in
+  NoDup (keys s) /\ NoDup (vals s) /\
+  (forall k v, In (k, v) (allm s) -> exists mi, nth_error (heap s) v = Some mi /\ mfile mi = k).
+Proof.
+  intro s. destruct (run_hist_stable c ops fs (init_state b) (Stable_init b)) as [A [B [C _]]]. auto.
+Qed.
+
+Theorem failure_leaves_only_earlier_models fs c f s e s' :
+  Stable s -> load_main fs c f s = (inl e, s') ->
+  (forall k v, In (k, v) (allm s') -> v < length (heap s) /\ In (k, v) (allm s)) /\
+  (cglobal c = true -> allm s' = allm s).
+Proof.
+  intros HS E. destruct (load_main_failure_clean fs c f s e s' HS E) as [Ha _].
+  assert (Hb : cglobal c = true -> allm (begin_op c s) = allm s) by (intro Hg; unfold begin_op; rewrite Hg; reflexivity).
+  split; [|intro Hg; rewrite Ha; apply Hb; exact Hg].
+  intros k v Hin. rewrite Ha in Hin. unfold begin_op in Hin. destruct (cglobal c); cbn in Hin; [|destruct Hin].
+  split; [|exact Hin]. destruct HS as [_ [_ [C _]]]. destruct (C k v Hin) as [mi [H _]]. apply nth_error_Some. congruence.
+Qed.
+
+Theorem after_failure_cache_serves fs fs' c f s e s' k v :
+  Stable s -> load_main fs c f s = (inl e, s') -> cglobal c = true ->
+  dget k (allm s) = Some v ->
+  fst (load_main fs' c k s') = inr v /\ reads (snd (load_main fs' c k s')) = [].
+Proof.
+  intros HS E Hg Hk. destruct (failure_leaves_only_earlier_models fs c f s e s' HS E) as [_ Ha].
+  specialize (Ha Hg). destruct (cached_load_returns_cached fs' c k s' v Hg ltac:(rewrite Ha; exact Hk)) as [A [B _]]. auto.
+Qed.
+
 Theorem load_main_locreg fs c f s : Stable s -> LocReg s -> LocReg (snd (load_main fs c f s)).
 Proof.
   intros HS HL. destruct (load_main fs c f s) as [[e|m] s'] eqn:E; cbn [snd].
@@ -1390,8 +1735,6 @@ Proof.
   apply IH; [apply load_main_stable; exact HS | apply load_main_locreg; assumption].
 Qed.
 
-(* C17 identity: after a successful load, every name looked up from a model of the result resolves into the
-   model itself, a builtin model, or THE model registered in all_models for the target's file *)
 Theorem identity_after_load fs c f s m s' x n t i :
   Stable s -> LocReg s -> load_main fs c f s = (inr m, s') ->
   In x (included m s') -> resolve_name c s' x n = Some (t, i) ->
@@ -1417,7 +1760,3 @@ Proof.
   - apply run_hist_stable, Stable_init.
   - apply run_hist_locreg; [apply Stable_init | apply LocReg_init].
 Qed.
-
-Lemma registered_same_file_same_model s t1 t2 :
-  dget (file_of t1 s) (allm s) = Some t1 -> dget (file_of t2 s) (allm s) = Some t2 -> file_of t1 s = file_of t2 s -> t1 = t2.
-Proof. intros H1 H2 E. rewrite E in H1. congruence. Qed.
